@@ -59,7 +59,7 @@ def pair_large_radius(ctx, rng):
     pl = dict(case, lean_model='Plate', model=pc.MODEL_OF['Plate'], r=None)
     K0, _ = mats(pl, which=('k0',))
     Ks = {}
-    for r in (1., 2., 3.7, 1e7):
+    for r in (1., 2., 3.7, 1e4, 1e7):
         Ks[r], _ = mats(dict(case, r=r), which=('k0',))
     # K(r) = K0 + X/r + Y/r^2 : solve X, Y from r = 1, 2 and predict r = 3.7
     D1 = Ks[1.]['k0'] - K0['k0']
@@ -70,9 +70,16 @@ def pair_large_radius(ctx, rng):
     d = pc.rel_diff(pred, Ks[3.7]['k0'])
     if d > 1e-8:
         return case, 'cylindrical stiffness is not plate + X/r + Y/r^2 (prediction at r=3.7 off by rel %.3e)' % d
-    d = pc.rel_diff(Ks[1e7]['k0'], K0['k0'])
-    if d > 1e-5:
-        return case, 'cylindrical panel of radius 1e7 differs from the flat plate by rel %.3e' % d
+    # "tends to the flat plate": the distance to the plate matrix is the exact expansion X/r + Y/r^2 and decays like 1/r
+    # (no absolute bound: for a very thin laminate the membrane term A22/r^2 competes with D22/b^4 even at r = 1e7)
+    for r in (1e4, 1e7):
+        d = pc.rel_diff(Ks[r]['k0'], K0['k0'] + X / r + Y / r ** 2)
+        if d > 1e-8:
+            return case, 'cylindrical panel of radius %g is not plate + X/r + Y/r^2 (rel %.3e)' % (r, d)
+    d4, d7 = pc.rel_diff(Ks[1e4]['k0'], K0['k0']), pc.rel_diff(Ks[1e7]['k0'], K0['k0'])
+    if d7 > 2e-3 * d4 + 1e-12:
+        return case, ('the distance of the cylindrical panel from the flat plate does not decay like 1/r: rel %.3e at r = 1e4, '
+                      '%.3e at r = 1e7' % (d4, d7))
     return None, None
 
 
@@ -91,7 +98,11 @@ def pair_w_block(ctx, rng):
 
 def pair_num_analytic(ctx, rng):
     case = pc.gen_panel_case(rng, models=('Plate', 'CPanel'), max_mn=3, y12=False)
+    case['force_ortho'] = rng.random() < 0.5          # rarely used option: both integration routes must see the same laminate
+    if case['force_ortho'] and all(abs(a_) % 90 == 0 for a_ in case['stack']):
+        case['stack'] = list(case['stack']) + [30.]
     p = pc.make_panel(case)
+    p.force_orthotropic_laminate = case['force_ortho']
     N = (rng.uniform(-5, 5), rng.uniform(-5, 5), rng.uniform(-5, 5))
     k0 = pc.quiet(p.calc_k0, silent=True).toarray()
     size = p.get_size()
@@ -165,6 +176,8 @@ def pair_similarity(ctx, rng):
     for f in 'uv':
         case['flags'][f + '1tx'] = case['flags'][f + '1ty'] = 0.
     s, e, qq = rng.uniform(0.3, 3), rng.uniform(0.3, 3), rng.uniform(0.3, 3)
+    if rng.random() < 0.4:      # a change of the unit system (m -> mm / um, Pa -> GPa / MPa ...): many orders of magnitude
+        s, e, qq = s * rng.choice([1e-3, 1e-2, 1e3]), e * rng.choice([1e-9, 1e-6, 1e3]), qq * rng.choice([1e-9, 1e-3, 1.])
     N = (-1., 0., 0.)
     A, _ = mats(case, N=N)
     c2 = dict(case, a=case['a'] * s, b=case['b'] * s, plyt=case['plyt'] * s, offset=case['offset'] * s, mu=case['mu'] * qq)
